@@ -120,6 +120,7 @@ type WDerive struct {
 	PadCH         int      `json:"pad_ch,omitempty"`
 	TPs           string   `json:"tps,omitempty"`
 	Plans         []int    `json:"plans,omitempty"`          // InitialPackets: pairs (CryptoLength, PacketSize) per datagram
+	GreaseExact   bool     `json:"grease_exact,omitempty"`   // two private parameters with GREASE-shaped IDs (31*N+27) in the list, one of them suppressed by its exact ID
 	DupSuppressed uint64   `json:"dup_suppressed,omitempty"` // a private-use parameter listed several times in the spec and suppressed
 }
 
